@@ -31,6 +31,9 @@ pub enum SEv {
     ConnectSilent,
     Shutdown,
     DropHandle,
+    /// a peer the address filter refuses (the server then runs with the filter Exact(127.0.0.1)
+    /// instead of Any; this peer comes from 127.0.0.2): no session, nobody evicted
+    ConnectFiltered,
 }
 
 trait Stream: AsyncRead + AsyncWrite + Unpin + Send {}
@@ -132,16 +135,17 @@ async fn wait_sessions(app: &NetApp, n: usize) -> bool {
 
 pub async fn run_history(h: &History) -> Vec<(String, String)> {
     let mut problems: Vec<(String, String)> = vec![];
+    let filter = || if h.events.contains(&SEv::ConnectFiltered) { AddressFilter::Exact("127.0.0.1".parse().unwrap()) } else { AddressFilter::Any };
     let (mut handle, addr, app) = if h.tls {
         let c = Cell { min13: false, self_signed: false, authz: false, rodbus_is_server: true, peer: PeerVersions::Both, cert: CertKind::Valid, spawn: false, ctor: 0 };
-        match start_tls_server(&c, "ca_a", AddressFilter::Any, "127.0.0.1", h.max_sessions).await {
+        match start_tls_server(&c, "ca_a", filter(), "127.0.0.1", h.max_sessions).await {
             Ok(s) => (Some(s.handle), s.addr, s.app),
             Err(e) => return vec![("MACHINERY:server-start".into(), e)],
         }
     } else {
         let app = net_app(&[1]);
         let (listener, addr) = listen("127.0.0.1").await;
-        let (handle, task) = create_tcp_server_task(h.max_sessions, listener, app.map.clone(), AddressFilter::Any, DecodeLevel::nothing());
+        let (handle, task) = create_tcp_server_task(h.max_sessions, listener, app.map.clone(), filter(), DecodeLevel::nothing());
         tokio::spawn(task.run());
         (Some(handle), addr, app)
     };
@@ -302,6 +306,23 @@ pub async fn run_history(h: &History) -> Vec<(String, String)> {
                     conns[i].live = false;
                 }
             }
+            SEv::ConnectFiltered => {
+                if !model.up {
+                    continue;
+                }
+                // the connection may be accepted by the kernel; the server must end it by itself
+                if let Ok(mut s) = connect_from("127.0.0.2", addr).await {
+                    match read_n(&mut s, 1, STEP_TIMEOUT).await {
+                        ReadOutcome::Eof(_) | ReadOutcome::Error(..) => {}
+                        other => {
+                            fail("filtered-peer-kept", format!("a peer from 127.0.0.2 (filter: exactly 127.0.0.1) was not disconnected: {other:?}"));
+                            break;
+                        }
+                    }
+                }
+                let n = model.order.len();
+                let _ = wait_sessions(&app, n).await;
+            }
             SEv::DropHandle => {
                 handle = None;
                 model.up = false;
@@ -418,6 +439,9 @@ fn enabled(h: &[SEv], tls: bool, max_conn: usize) -> Vec<SEv> {
             v.push(SEv::ConnectSilent);
         }
     }
+    if live.iter().any(|x| *x) && !h.contains(&SEv::ConnectFiltered) {
+        v.push(SEv::ConnectFiltered);
+    }
     v.push(SEv::Shutdown);
     v.push(SEv::DropHandle);
     v
@@ -456,7 +480,7 @@ fn eviction_aware_filter(h: &[SEv], cap: usize) -> bool {
 
 fn cost(e: &SEv) -> usize {
     match e {
-        SEv::Stall(_) | SEv::SetDecode9 | SEv::ConnectSilent => 1,
+        SEv::Stall(_) | SEv::SetDecode9 | SEv::ConnectSilent | SEv::ConnectFiltered => 1,
         _ => 0,
     }
 }
@@ -466,7 +490,7 @@ pub fn check_c15(tier: &str) -> i32 {
         "C15",
         tier,
         "model_checking",
-        "all histories up to depth D over {connect, peer closes i, request on i, garbage on i, half frame on i, set decode level, set decode level x9, stall i (peer stops reading until the server's write blocks), silent TLS peer, shutdown, drop handle} with max_sessions in {0,1,2,3} against the unmodified create_tcp_server_task / create_tls_server_task on 127.0.0.1, peers are raw sockets / independent rustls clients; events are applied in lock-step and after every event every connection is probed: connections the reference tracker (capacity max(1,n), evict oldest) considers live must answer a sentinel read, closed ones must deliver EOF, after shutdown / handle drop new connections must be refused. states = distinct reference-tracker states",
+        "all histories up to depth D over {connect, peer closes i, request on i, garbage on i, half frame on i, set decode level, set decode level x9, stall i (peer stops reading until the server's write blocks), silent TLS peer, a peer refused by the address filter, shutdown, drop handle} with max_sessions in {0,1,2,3} against the unmodified create_tcp_server_task / create_tls_server_task on 127.0.0.1, peers are raw sockets / independent rustls clients; events are applied in lock-step and after every event every connection is probed: connections the reference tracker (capacity max(1,n), evict oldest) considers live must answer a sentinel read, closed ones must deliver EOF, after shutdown / handle drop new connections must be refused. states = distinct reference-tracker states",
     );
     let thorough = rep.thorough();
     let depth = if thorough { 5 } else { 4 };
@@ -551,6 +575,11 @@ pub fn check_c15(tier: &str) -> i32 {
                 path.pop();
                 any = true;
             }
+            if !order.is_empty() && !path.contains(&SEv::ConnectFiltered) && path.len() + 1 < d {
+                path.push(SEv::ConnectFiltered);
+                rec2(path, d, cap, out);
+                path.pop();
+            }
             for i in order.iter().copied().collect::<Vec<_>>() {
                 // closing is only interesting while something can still be connected afterwards
                 if path.len() + 1 < d {
@@ -568,7 +597,7 @@ pub fn check_c15(tier: &str) -> i32 {
         rec2(&mut vec![], tracker_depth, cap, &mut out);
         for p in out {
             // histories without any close are already covered by the general alphabet
-            if p.iter().any(|e| matches!(e, SEv::Close(_))) && matches!(p.last(), Some(SEv::Connect)) {
+            if p.iter().any(|e| matches!(e, SEv::Close(_) | SEv::ConnectFiltered)) && matches!(p.last(), Some(SEv::Connect)) {
                 histories.push(History { max_sessions, tls: false, events: p });
             }
         }
@@ -629,6 +658,7 @@ pub fn check_c15(tier: &str) -> i32 {
                 SEv::ConnectSilent => "ev:silent-tls-peer",
                 SEv::Shutdown => "ev:shutdown",
                 SEv::DropHandle => "ev:drop-handle",
+                SEv::ConnectFiltered => "ev:filtered-peer",
             });
         }
         st.observe(&(h.max_sessions, h.tls, format!("{:?}", h.events), problems.len()));
@@ -645,7 +675,7 @@ pub fn check_c15(tier: &str) -> i32 {
         }
     }
     rep.phase("histories", st, json!({"histories": hist.len()}));
-    for c in ["ev:connect", "ev:close", "ev:request", "ev:garbage", "ev:half-frame", "ev:set-decode", "ev:set-decode-x9", "ev:stall", "ev:shutdown", "ev:drop-handle", "ev:silent-tls-peer"] {
+    for c in ["ev:connect", "ev:close", "ev:request", "ev:garbage", "ev:half-frame", "ev:set-decode", "ev:set-decode-x9", "ev:stall", "ev:shutdown", "ev:drop-handle", "ev:silent-tls-peer", "ev:filtered-peer"] {
         rep.require_class(c);
     }
     rep.assumptions.push("the kernel scheduler is real: histories are lock-step (each event is followed by a probe of every connection), a failing history must fail three times in a row to be reported".into());
